@@ -199,7 +199,7 @@ CHECKS = {
               "inference re-derives every removed annotation on hand-built and generated programs in four languages. One "
               "genuine defect found there and repaired in /repo."),
         note=("trusted: slice-mode havoc, the syntactic census (aliasing only via fresh objects), DefaultVisitorUpdate / "
-              "update_children re-install unchanged children (not proved); bounded: 15 hand-built scenarios x 2 element types x "
+              "update_children re-install unchanged children (not proved); bounded: 17 hand-built scenarios x 2 element types x "
               "4 languages + fixed generator seed lists; inferred-narrower-than-declared is counted, not reported"),
         design='DESIGN.md section 10.3 (C03/C04)'),
     'C04': dict(
